@@ -375,6 +375,66 @@ theorem C11_validate_sum_total (fs : FeeSchedule) (acct : Account) (db : List Or
     (h : sumReserved fs acct db = some rs) :
     (r0 :: runningSums fs acct r0 db).getLast? = some (r0 + rs) := runningSums_last fs acct db r0 rs h
 
+/-! ## one batch that passed the verifier's unit checks -/
+
+/-- what is assumed of a single batch besides the verifier's unit check: fills ≥ minimum match, prices on the
+    order's side, fee rate ≤ maximum, no larger witness, between 1 and 10^7 matches -/
+def BatchOk (o : Order) (ver : Nat) (priceOk : Nat → Prop) (b : BatchFills) : Prop :=
+  (∀ f ∈ b.fills, o.minUnitsMatch ≤ f.units ∧ priceOk f.price) ∧ b.feeRate ≤ o.maxBatchFeeRate ∧
+  traderWitness b.ver ≤ traderWitness ver ∧ 1 ≤ b.fills.length ∧ b.fills.length ≤ 10 ^ 7
+
+theorem admissible_of_verified (o : Order) (ver : Nat) (priceOk : Nat → Prop) (b : BatchFills)
+    (hb : BatchOk o ver priceOk b) (hv : verifyUnitsOk o (fillsUnits b.fills) = true) :
+    Admissible o ver priceOk [b] := by
+  obtain ⟨h1, h2, h3, h4, h5⟩ := hb
+  have hle : fillsUnits b.fills ≤ o.unitsUnfulfilled := by
+    unfold verifyUnitsOk at hv
+    simp only [Bool.and_eq_true, Bool.not_eq_true', decide_eq_false_iff_not] at hv
+    omega
+  refine ⟨?_, ?_, ?_, ?_, ?_⟩
+  · intro c hc; rw [List.mem_singleton.1 hc]; exact h1
+  · intro c hc; rw [List.mem_singleton.1 hc]; exact h2
+  · intro c hc; rw [List.mem_singleton.1 hc]; exact h3
+  · intro c hc; rw [List.mem_singleton.1 hc]; exact ⟨h4, h5⟩
+  · simpa [totalUnits] using hle
+
+/-- **A batch that passes the verifier's unit check never debits more than the order reserves** – also when the order
+was partially filled by earlier batches: `ReservedValue` is computed from the units that are LEFT, and the verifier
+bounds the units of the batch by the same `UnitsUnfulfilled` (`verifyUnitsOk`). Bids; asks below. -/
+theorem C11_verified_batch_within_reserve_bid (fs : FeeSchedule) (o : Order) (ver : Nat) (b : BatchFills)
+    (hbid : o.isBid = true) (hact : archived o.state = false) (hmin : 0 < o.minUnitsMatch)
+    (hguard : premiumGuard o = true) (hfloor : feePerKwFloor ≤ o.maxBatchFeeRate)
+    (hb : BatchOk o ver (· ≤ o.fixedRate) b) (hv : verifyUnitsOk o (fillsUnits b.fills) = true) :
+    ∃ R : Int, orderReservedValue fs o ver = .ok R ∧ batchDebit fs o b ≤ R + 2 * (b.fills.length : Int) := by
+  obtain ⟨R, hR, hle⟩ := C11_bid_reserve_covers fs o ver [b] hbid hact hmin hguard hfloor
+    (admissible_of_verified o ver _ b hb hv)
+  exact ⟨R, hR, by simpa [totalDebit, totalFills] using hle⟩
+
+theorem C11_verified_batch_within_reserve_ask (fs : FeeSchedule) (o : Order) (ver : Nat) (b : BatchFills)
+    (hask : o.isBid = false) (hact : archived o.state = false) (hmin : 0 < o.minUnitsMatch)
+    (hag : askGuard o) (hguard : premiumGuard o = true) (hfloor : feePerKwFloor ≤ o.maxBatchFeeRate)
+    (hb : BatchOk o ver (o.fixedRate ≤ ·) b) (hv : verifyUnitsOk o (fillsUnits b.fills) = true) :
+    ∃ R : Int, orderReservedValue fs o ver = .ok R ∧ batchDebit fs o b ≤ R + 2 * (b.fills.length : Int) := by
+  obtain ⟨R, hR, hle⟩ := C11_ask_reserve_covers fs o ver [b] hask hact hmin hag hguard hfloor
+    (admissible_of_verified o ver _ b hb hv)
+  exact ⟨R, hR, by simpa [totalDebit, totalFills] using hle⟩
+
+/-- the verifier's bound has to be the REMAINING units: a bid of 10 units (minimum 2) with 4 units left reserves
+    10550 sat, while a batch matching 8 units – within the original size – debits 17305 sat. -/
+def partialFillWitness : Order := ⟨true, 0, 2, 2, 20000, 1000000, 10, 4, 2, 253, 1000, 0, 0⟩
+
+theorem C11_overfill_bound_needed :
+    verifyUnitsOk partialFillWitness 8 = false ∧ (8 : Nat) ≤ partialFillWitness.units ∧
+    BatchOk partialFillWitness 0 (· ≤ partialFillWitness.fixedRate) ⟨253, 0, [⟨8, 20000, 0⟩]⟩ ∧
+    orderReservedValue ⟨1100, 50⟩ partialFillWitness 0 = .ok 10550 ∧
+    batchDebit ⟨1100, 50⟩ partialFillWitness ⟨253, 0, [⟨8, 20000, 0⟩]⟩ = 17305 := by
+  refine ⟨by decide, by decide, ?_, by decide, by decide⟩
+  refine ⟨?_, by decide, by decide, by decide, by decide⟩
+  intro f hf
+  simp only [List.mem_singleton] at hf
+  subst hf
+  decide
+
 /-! ## the statement without the guards, and why each guard is there -/
 
 /-- The reserve inequality for an order, as the English text reads when no admission guard is added. -/
@@ -520,5 +580,13 @@ example : (archived exBid.state = true ∨ (inDomain exFs exBid = true ∧ 0 < e
       archived x.state = true ∨ (inDomain exFs x = true ∧ 0 < x.minUnitsMatch)) ∧
     ([exAsk, { exBid with acctKey := 1 }].filter (fun x => x.acctKey = 0)).length ≤ 3 ∧
     runningSums exFs ⟨0, 2000000, 0⟩ 9718 [exAsk, { exBid with acctKey := 1 }] = [705324] := by decide
+
+/-- `C11_verified_batch_within_reserve_bid`: the example bid (7 of 10 units left) in a batch matching 2 + 3 units -/
+example : BatchOk exBid 0 (· ≤ exBid.fixedRate) ⟨800, 0, [⟨2, 4000, 0⟩, ⟨3, 4000, 0⟩]⟩ ∧
+    verifyUnitsOk exBid (fillsUnits [⟨2, 4000, 0⟩, ⟨3, 4000, 0⟩]) = true ∧ exBid.unitsUnfulfilled < exBid.units := by
+  refine ⟨⟨?_, by decide, by decide, by decide, by decide⟩, by decide, by decide⟩
+  intro f hf
+  simp only [List.mem_cons, List.mem_nil_iff, or_false] at hf
+  rcases hf with rfl | rfl <;> decide
 
 end Pool.C11
